@@ -4,14 +4,15 @@ MANIFEST = dict(
     category="other",
     text="Decided on the real MatrixPreprocess / MatrixColumnMinMax bodies for bounded shapes: for every option the stored scaling is the statistic "
          "the option promises (routing of sd / rms / sqrt(sd) / max-min / mean / 1, with the statistic routines as tagged oracles), one average and "
-         "one scaling per column, option -1 copies and stores nothing; fit followed by apply on the same data agree on the zero-spread decision "
+         "one scaling per column, option -1 copies and stores nothing; every transformed cell equals (cell - stored average) / stored scaling, at fit and when the stored vectors are "
+         "applied to new data (arbitrary cell values; the oracle statistics are powers of two, so the formula is one rounding however it is evaluated), and applying re-estimates nothing; fit followed by apply on the same data agree on the zero-spread decision "
          "for every scaling value in the property's domain (spread >= 0.02 or exactly 0) and zero-spread columns become exactly 0; the column "
          "min/max ignores missing-coded cells in any position and bounds/attains the remaining cells; tensor preprocessing is matrix preprocessing applied block by block.",
-    note="Bounded shapes. Numerical values of the transformed columns (unit standard deviation etc., zero column means) are floating-point "
-         "statements and not decided; statistic routines other than min/max enter as oracles; ",
+    note="Bounded shapes. That the transformed columns have unit standard deviation / zero mean follows from this formula together with the statistics' own "
+         "definitions (C11 decides those on exact instances); as a floating-point statement on general data it is not decided. Statistic routines other than min/max enter as oracles here; ",
     technique="CBMC on the real preprocessing bodies with tagged oracle statistics; comparisons-only obligations on the real min/max; bounded shapes")
 
-META = dict(decided="option -> statistic routing; stored vector shapes; option -1 copy; zero-spread guard consistency fit/apply on the property's domain; min/max ignore missing cells",
+META = dict(decided="option -> statistic routing; transformed cell = (cell - stored average) / stored scaling at fit and apply; stored vector shapes; option -1 copy; zero-spread guard consistency fit/apply on the property's domain; min/max ignore missing cells",
             not_decided="numerical column statistics of the transformed data; apply-path handling of missing cells",
             trusted_base=["tagged oracle statistics in harness/C10/prep.c"], assumptions=[])
 
